@@ -79,6 +79,51 @@ CLAIMS.update({
             "and tolerates only that exact class.",
             "Coq proof of the formatter's law in known-finding form + hook-based differential check"),
 })
+PARSE_NOTE = NOTE + (" The table-driven parser model (lexer, LR driver with error recovery, every action function, javadoc scanner) is "
+                     "regenerated/transcribed from the lalrpop output of the build under test and must equal add_content exactly "
+                     "(tree, all ranges, all diagnostics with messages) on every input of the run.")
+CLAIMS.update({
+    "C01": ("proof", "PARTIAL proof. Coq theorems: validation of grammar-shaped trees cannot panic (C01_validation_total); one result per held file "
+            "tagged with its id (C01_ids); one slot per id after any history (C01_slots); every position the model builds is a character "
+            "boundary inside the text (C01_positions_partial). NOT proved: that the parser model never reaches Panicked / OutOfFuel for the "
+            "regenerated tables (C01_full is stated, not proved). That part is decided by running: the exact parser model and the "
+            "implementation on soups, mutated documents, Unicode injection, multi-file sets, deep nesting and large inputs under "
+            "catch_unwind and a timeout.",
+            "Coq proof (validation totality, bookkeeping, position soundness) + exact differential correspondence of a table-driven parser model + crash/timeout harness",
+            PARSE_NOTE),
+    "C02": ("other", "No grammar-level theorem yet. Decided by (1) an oracle that compares the implementation's tree with the abstract document "
+            "each test was rendered from, in 4 layouts per document (minimal, spaces, wild Unicode/comment trivia, safe), and (2) the exact "
+            "correspondence of the implementation with the table-driven Coq parser model on the same inputs. Coq's role here is the "
+            "executable model, not a theorem: see DESIGN.md section 8.",
+            "generator-based mirror oracle + exact differential correspondence with the Coq parser model (no theorem)",
+            PARSE_NOTE),
+    "C03": ("proof", "PARTIAL proof. Coq theorems: validation never drops a diagnostic (C03_kept, C03_kept_all); a fatal parse error leaves no tree "
+            "and an Error (C03_fatal_is_loud_partial). NOT proved: agreement of the verdict with the context-free grammar (C03_full stated only). "
+            "Decided by running: documents well-formed / malformed by construction, mutations and soups, lexical corner cases, against the "
+            "oracles 'no tree => Error', 'no keyword stored as identifier', 'well-formed => silent', 'malformed-by-construction => Error', "
+            "plus exact correspondence with the parser model.",
+            "Coq proof (diagnostic preservation, loud failure) + construction-based oracles + exact differential correspondence",
+            PARSE_NOTE),
+    "C04": ("proof", "PARTIAL proof. Coq theorems: every position built through Position::new is a character boundary inside the text and carries the "
+            "lookup's line/column (C04_position, C04_range_partial, C04_boundary). Exactness and nesting are decided by text-based oracles on "
+            "the implementation's output (name range covers exactly the name as written, full ranges first-to-last token, children inside "
+            "parents, siblings increasing, syntax diagnostics on exactly the offending token, validation diagnostics on a node's range, the "
+            "lookup table checked against the line/column specification) and by exact correspondence with the parser model.",
+            "Coq proof (position soundness) + text-based range oracles + exact differential correspondence",
+            PARSE_NOTE),
+    "C14": ("other", "No theorem yet (recovery of the generated automaton on arbitrary garbage is an unbounded claim about 256 table states). Decided by "
+            "an oracle on the implementation: for random garbage members at every position of generated items, a tree exists, the "
+            "well-formed siblings are a subsequence of the members (position-free equality), at least one Error, every syntax Error inside "
+            "the garbage's extent; plus exact correspondence with the table-driven Coq parser model (which reproduces recovery exactly).",
+            "garbage-member oracle + exact differential correspondence with the Coq parser model (no theorem)",
+            PARSE_NOTE),
+    "C18": ("proof", "PARTIAL proof. Coq theorems: for any text before, any comment text without '/' not starting with '*' (any Unicode), and any blank "
+            "gap, the back-scan returns exactly the comment's text and get_javadoc its normalisation (C18_locate, C18_attach); a construct "
+            "preceded by a non-comment on its line has no documentation (C18_none_partial). Ordinary comments in the gap and the normaliser "
+            "are decided by the generator-based oracle (expected text per construct, 36 explicit arrangements) and exact correspondence.",
+            "Coq proof (state-machine induction over the reversed text) + generator-based documentation oracle + exact differential correspondence",
+            PARSE_NOTE),
+})
 PENDING = {}
 
 def main():
